@@ -16,7 +16,9 @@ bool p, q;
 double x, y;
 clock cl;
 process P() { state s0; init s0; trans s0 -> s0 { guard a < 3; assign a = a + 1; }; }
-system P;
+process T(const int[0,3] id) { int v; state t0; init t0; }
+process T2(const int[0,3] id, const int[0,1] u) { int v; int w[3]; state t0, t1; init t0; }
+system P, T, T2;
 )";
 
 // keeps the whole query expression (TigaPropertyBuilder strips `control:` etc. into PropInfo::type)
